@@ -1493,13 +1493,48 @@ pub fn indent_pairing(cx: &mut Ctx, rule: &str) {
     }
     // Indentations invariants
     let t = sm::tsx(&lx.file);
-    let ok = t.contains("fnis_empty(&self)->bool{self.indent_stack.len()==1}")
-        && t.contains("fnpop(&mutself)->Option<IndentationLevel>{ifself.is_empty(){returnNone;}self.indent_stack.pop()}")
-        && t.contains("indent_stack:vec![IndentationLevel::default()]");
+    // is_empty() and pop() are interpreted on stacks of 1..=4 levels: is_empty() <=> one level is left; pop() returns
+    // None and leaves the stack alone at one level, and removes the top level otherwise
+    let interpreted = (|| -> Result<(), String> {
+        use crate::eval::{Machine, V};
+        let ie = lx.method("Indentations", "is_empty").ok_or("Indentations::is_empty not found")?;
+        let pp = lx.method("Indentations", "pop").ok_or("Indentations::pop not found")?;
+        for len in 1..=4usize {
+            let stack = V::List((0..len).map(|k| V::Int(k as i128)).collect());
+            let popped = std::cell::Cell::new(0usize);
+            let empty_val = std::cell::RefCell::new(None::<bool>);
+            let methods = |recv: &V, m: &str, _a: &[V]| -> Option<V> {
+                match (recv, m) {
+                    (V::List(v), "pop") => {
+                        popped.set(popped.get() + 1);
+                        Some(V::Opt(v.last().cloned().map(Box::new)))
+                    }
+                    (V::Enum(r), "is_empty") if r == "self" => empty_val.borrow().map(V::Bool),
+                    _ => None,
+                }
+            };
+            let mut mach = Machine::new(&methods);
+            mach.set("self.indent_stack", stack.clone());
+            let e = mach.eval_fn_body(&ie.block).map_err(|e| format!("is_empty not interpretable ({})", e))?;
+            if e != V::Bool(len == 1) {
+                return Err(format!("is_empty() is {:?} with {} level(s) on the stack", e, len));
+            }
+            *empty_val.borrow_mut() = Some(len == 1);
+            let mut mach = Machine::new(&methods);
+            mach.set("self.indent_stack", stack);
+            let r = mach.eval_fn_body(&pp.block).map_err(|e| format!("pop not interpretable ({})", e))?;
+            let want = if len == 1 { V::Opt(None) } else { V::Opt(Some(Box::new(V::Int(len as i128 - 1)))) };
+            if r != want || popped.get() != usize::from(len > 1) {
+                return Err(format!("pop() with {} level(s) returns {:?} after {} removal(s)", len, r, popped.get()));
+            }
+        }
+        Ok(())
+    })();
+    let ok = interpreted.is_ok() && t.contains("indent_stack:vec![IndentationLevel::default()]");
     if ok {
         cx.ok(rule, "Indentations: starts with one level, pop() refuses to remove it, is_empty() = (len == 1)");
     } else {
-        cx.fail(rule, &format!("{}/stack-invariant", rule), &lx.rel, "the Indentations stack does not keep its base level (Default with one level; pop returns None at len 1)");
+        cx.fail(rule, &format!("{}/stack-invariant", rule), &lx.rel, &format!("the Indentations stack does not keep its base level (Default with one level; pop returns None at len 1){}", interpreted.as_ref().err().map(|e| format!(": {}", e)).unwrap_or_default()));
     }
     // the stack is touched only through its methods
     let n = t.matches(".indent_stack").count();
@@ -1707,6 +1742,25 @@ pub fn indentation_counters(cx: &mut Ctx, rule: &str) {
         }
     });
     let Some(m) = mm else { return cx.fail(rule, &format!("{}/shape", rule), &lx.loc(f), "no match on window[0]") };
+    // the counters are whatever locals the returned IndentationLevel { spaces, tabs } is built from: the rule reads
+    // the function with those locals called `spaces` and `tabs`
+    let mut names: Vec<(String, String)> = vec![];
+    sm::for_each_expr_in_block(&f.block, |e| {
+        if let syn::Expr::Struct(st) = e {
+            if st.path.segments.last().map_or(false, |s| s.ident == "IndentationLevel") {
+                names.clear();
+                for fv in &st.fields {
+                    if let (syn::Member::Named(m), Some(id)) = (&fv.member, sm::as_ident(&fv.expr)) {
+                        names.push((id, m.to_string()));
+                    }
+                }
+            }
+        }
+    });
+    let canon_toks = |toks: &[String]| -> String {
+        let out: String = toks.iter().map(|t| names.iter().find(|(from, _)| from == t).map_or(t.as_str(), |(_, to)| to.as_str())).collect();
+        out.replace("spaces:spaces", "spaces").replace("tabs:tabs", "tabs")
+    };
     for arm in &m.arms {
         let pat = sm::tsc(&arm.pat);
         // drop cfg(full-lexer) statements for the default-configuration reading
@@ -1720,9 +1774,9 @@ pub fn indentation_counters(cx: &mut Ctx, rule: &str) {
                     syn::Stmt::Expr(syn::Expr::MethodCall(mc), _) => !sm::cfg_features(&mc.attrs).iter().any(|(n, p)| n == "full-lexer" && *p),
                     _ => true,
                 })
-                .map(|s| sm::tsc(s))
+                .map(|s| canon_toks(&sm::tsx(s).toks))
                 .collect(),
-            other => vec![sm::tsc(other)],
+            other => vec![canon_toks(&sm::tsx(other).toks)],
         };
         let key = format!("{}/{}", rule, pat);
         let ok = match pat.as_str() {
@@ -1740,8 +1794,9 @@ pub fn indentation_counters(cx: &mut Ctx, rule: &str) {
             cx.fail(rule, &key, &lx.loc(&arm.pat), &format!("arm {} is `{}`: counters are not (incremented once per consumed indentation character | reset to 0) as in the sibling arms", pat, stmts.join(" ")));
         }
     }
-    let t = sm::tsx(&f.block);
-    if t.starts_with("{letmutspaces:u32=0;letmuttabs:u32=0;loop{") && t.ends_with("Ok(IndentationLevel{spaces,tabs})}") {
+    let t = canon_toks(&sm::tsx(&f.block).toks);
+    let starts = t.starts_with("{letmutspaces:u32=0;letmuttabs:u32=0;loop{") || t.starts_with("{letmuttabs:u32=0;letmutspaces:u32=0;loop{");
+    if starts && t.ends_with("Ok(IndentationLevel{spaces,tabs})}") {
         cx.ok(rule, "counters start at 0 and are returned as IndentationLevel { tabs, spaces }");
     } else {
         cx.fail(rule, &format!("{}/frame", rule), &lx.loc(f), "eat_indentation does not start both counters at 0 and return IndentationLevel { tabs, spaces }");
